@@ -26,7 +26,7 @@ package exporter
 //@   ensures  tplsame: forall j in [0, len(theSet(set).records)): is(theSet(set).records[j], *templateRecord) ==>
 //@                    theSet(set).records[j].(*templateRecord).buffer == old(theSet(set).records[j].(*templateRecord).buffer)
 //@   ensures  setsame: theSet(set).records == old(theSet(set).records) && theSet(set).length == old(theSet(set).length)
-//@   modifies theSet(set).records[*].(*baseRecord).buffer
+//@   modifies theSet(set).records[*].(*baseRecord).buffer, theSet(set).records[*].(*dataRecord).encodeErr
 //@   loop 1 invariant cnt:  0 <= $i && $i <= len(theSet(set).records)
 //@   loop 1 invariant idx:  index == 20 + sumRec(theSet(set).records, $i) && index <= msgLen
 //@   loop 1 invariant out:  len(bytesSlice) == msgLen && fresh(bytesSlice) && msgLen == 16 + theSet(set).length && msgLen <= 65535
@@ -44,4 +44,128 @@ package exporter
 //@                       bytesSlice[q] == recBufAt(theSet(set).records[i], q - 20 - sumRec(theSet(set).records, i))
 //@   loop 1 hint next: $i < len(theSet(set).records) ==> sumRec(theSet(set).records, $i + 1) == sumRec(theSet(set).records, $i) + recLen(theSet(set).records[$i])
 //@                    && sumRec(theSet(set).records, $i + 1) <= sumRec(theSet(set).records, len(theSet(set).records))
+//@   loop 1 decreases len(theSet(set).records) - $i
+
+// ---------------------------------------------------------------------------
+// SendSet and helpers (C08 sequence numbers / header bookkeeping; C09 never an
+// invalid, oversized or silently altered message)
+// ---------------------------------------------------------------------------
+
+//@ pure tmHas(ep *ExportingProcess, id int) bool = has(ep.templatesMap, id)
+//@ pure recId(r entities.Record) int = r.(*baseRecord).templateID
+//@ pure recCount(r entities.Record) int = r.(*baseRecord).fieldCount
+//@ // sane(ep, r): the checks a data record must pass before it may be sent (C09)
+//@ pure sane(ep *ExportingProcess, r entities.Record) bool = tmHas(ep, recId(r))
+//@     && recCount(r) == len(ep.templatesMap[recId(r)].elements) % 65536
+//@     && recLen(r) >= ep.templatesMap[recId(r)].minDataRecLen
+
+//@ func (ep *ExportingProcess) dataRecSanityCheck(rec) (err)
+//@   requires ep:   ep != nil && !ep.templateMutex.held
+//@   requires rec:  recSafe(rec) && (is(rec, *dataRecord) ==> !rec.(*dataRecord).isDecoding)
+//@   ensures  unknown: !old(tmHas(ep, recId(rec))) ==> err != nil
+//@   ensures  count:   old(tmHas(ep, recId(rec))) && old(recCount(rec)) != old(len(ep.templatesMap[recId(rec)].elements)) % 65536 ==> err != nil
+//@   ensures  ok:      err == nil ==> old(sane(ep, rec))
+//@   ensures  okconv:  old(sane(ep, rec)) && isnil(rec.(*dataRecord).encodeErr) ==> err == nil
+//@   ensures  lock:    !ep.templateMutex.held
+//@   ensures  cachedlen: is(rec, *dataRecord) && old(sane(ep, rec)) ==> len(rec.(*dataRecord).buffer) == rec.(*dataRecord).len
+//@   ensures  tplbuf:  is(rec, *templateRecord) ==> rec.(*templateRecord).buffer == old(rec.(*templateRecord).buffer)
+//@   ensures  faithful: err == nil && is(rec, *dataRecord) && old(len(rec.(*dataRecord).buffer) != rec.(*dataRecord).len) ==>
+//@                    (forall j in [0, len(rec.(*dataRecord).orderedElementList)): old(encodable(rec.(*dataRecord).orderedElementList[j])))
+//@   modifies ep.templateMutex.held, rec.(*baseRecord).buffer, rec.(*dataRecord).encodeErr
+
+//@ func (ep *ExportingProcess) updateTemplate(id, elements, minDataRecLen) ()
+//@   requires ep:   ep != nil && ep.templatesMap != nil && !ep.templateMutex.held
+//@   requires el:   elemsNN(elements, len(elements))
+//@   ensures  had:  old(tmHas(ep, id)) ==> ep.templatesMap[id] == old(ep.templatesMap[id])
+//@   ensures  has:  tmHas(ep, id)
+//@   ensures  added: !old(tmHas(ep, id)) ==> len(ep.templatesMap[id].elements) == len(elements) && ep.templatesMap[id].minDataRecLen == minDataRecLen
+//@                    && (forall j in [0, len(elements)): ep.templatesMap[id].elements[j] == ie(elements[j]))
+//@   ensures  others: forall k in [0, 65536): k != id ==> has(ep.templatesMap, k) == old(has(ep.templatesMap, k)) && ep.templatesMap[k] == old(ep.templatesMap[k])
+//@   ensures  lock: !ep.templateMutex.held
+//@   modifies ep.templateMutex.held, ep.templatesMap[*]
+//@   loop 1 invariant cnt: 0 <= $i && $i <= len(elements)
+//@   loop 1 invariant map: tmHas(ep, id) && len(ep.templatesMap[id].elements) == len(elements) && fresh(ep.templatesMap[id].elements)
+//@                    && ep.templatesMap[id].minDataRecLen == minDataRecLen && ep.templateMutex.held
+//@   loop 1 invariant done: forall j in [0, $i): ep.templatesMap[id].elements[j] == ie(elements[j])
+//@   loop 1 invariant others: forall k in [0, 65536): k != id ==> has(ep.templatesMap, k) == old(has(ep.templatesMap, k)) && ep.templatesMap[k] == old(ep.templatesMap[k])
+//@   loop 1 decreases len(elements) - $i
+
+//@ // msgOK: the bytes handed to the connection are the IPFIX message for this set with the given header values
+//@ pure msgHdr(m []byte, seq int, dom int, now int) bool = be16(m, 0) == 10 && be16(m, 2) == len(m)
+//@     && be32(m, 4) == (now / 1000000000) % 4294967296 && be32(m, 8) == seq && be32(m, 12) == dom
+//@ pure setPre(set entities.Set) bool = is(set, *set) && setInv(theSet(set)) && recsSafe(theSet(set)) && !theSet(set).isDecoding
+//@     && (forall i in [0, len(theSet(set).records)): is(theSet(set).records[i], *dataRecord) ==> !theSet(set).records[i].(*dataRecord).isDecoding)
+
+//@ func (ep *ExportingProcess) createAndSendIPFIXMsg(set) (n, err)
+//@   requires ep:   ep != nil && !isnil(ep.connToCollector)
+//@   requires set:  setPre(set)
+//@   ensures  seq:  ep.seqNumber == (old(theSet(set).setType) == Data ? (old(ep.seqNumber) + len(theSet(set).records)) % 4294967296 : old(ep.seqNumber))
+//@   ensures  toobig: old(16 + theSet(set).length > 65535) ==> err != nil && $wireN == old($wireN)
+//@   ensures  sent: !old(16 + theSet(set).length > 65535) ==> $wireN == old($wireN) + 1 && len($wireLast) == 16 + old(theSet(set).length)
+//@                    && msgHdr($wireLast, ep.seqNumber, ep.obsDomainID, $lastNow)
+//@                    && (forall q in [16, 20): $wireLast[q] == old(theSet(set).headerBuffer[q - 16]))
+//@   ensures  ok:   err == nil ==> n == len($wireLast) && $wireN == old($wireN) + 1
+//@   ensures  dom:  ep.obsDomainID == old(ep.obsDomainID)
+//@   modifies ep.seqNumber, $wireN, $wireLast, $wireLastN, $lastNow, theSet(set).records[*].(*baseRecord).buffer, theSet(set).records[*].(*dataRecord).encodeErr
+
+//@ pure tplRecsNN(s *set) bool = forall i in [0, len(s.records)): is(s.records[i], *templateRecord) ==>
+//@     elemsNN(s.records[i].(*templateRecord).orderedElementList, len(s.records[i].(*templateRecord).orderedElementList))
+//@ // typed: the records of a set are of the set's type (sets are reset before being re-prepared with another type)
+//@ pure typed(s *set) bool = forall i in [0, len(s.records)): (s.setType == Data ==> is(s.records[i], *dataRecord)) && (s.setType == Template ==> is(s.records[i], *templateRecord))
+//@ // freshEncodable: every data record that is serialized by this send (no cached buffer yet) holds only encodable values
+//@ pure freshEncodable(s *set) bool = forall i in [0, len(s.records)): is(s.records[i], *dataRecord) && len(s.records[i].(*dataRecord).buffer) != s.records[i].(*dataRecord).len ==>
+//@     (forall j in [0, len(s.records[i].(*dataRecord).orderedElementList)): encodable(s.records[i].(*dataRecord).orderedElementList[j]))
+//@ pure noEncErr(s *set) bool = forall i in [0, len(s.records)): is(s.records[i], *dataRecord) ==> isnil(s.records[i].(*dataRecord).encodeErr)
+//@ // distinctRecs: the records of a set are pairwise distinct objects (every add operation allocates a new record)
+//@ pure distinctRecs(s *set) bool = forall i in [0, len(s.records)): forall j in [0, len(s.records)): i != j ==> s.records[i].(*baseRecord) != s.records[j].(*baseRecord)
+//@ // hdrIdOK: the Set ID in the set header names a template sent before, and every record was added under it
+//@ pure hdrIdOK(ep *ExportingProcess, s *set) bool = tmHas(ep, be16(s.headerBuffer, 0)) && (forall i in [0, len(s.records)): recId(s.records[i]) == be16(s.headerBuffer, 0))
+//@ pure allSane(ep *ExportingProcess, s *set) bool = forall i in [0, len(s.records)): sane(ep, s.records[i])
+//@ pure tplBufSame(s *set) bool = forall j in [0, len(s.records)): is(s.records[j], *templateRecord) ==>
+//@     s.records[j].(*templateRecord).buffer == old(s.records[j].(*templateRecord).buffer)
+
+//@ func (ep *ExportingProcess) SendSet(set) (n, err)
+//@   requires ep:   ep != nil && !isnil(ep.connToCollector) && ep.templatesMap != nil && !ep.templateMutex.held && !ep.sendJSONRecord
+//@   requires set:  setPre(set) && tplRecsNN(theSet(set)) && typed(theSet(set)) && distinctRecs(theSet(set))
+//@   ensures  undef:  old(theSet(set).setType) == Undefined ==> err != nil && $wireN == old($wireN) && ep.seqNumber == old(ep.seqNumber)
+//@   ensures  insane: old(theSet(set).setType) == Data && !old(allSane(ep, theSet(set))) ==> err != nil && $wireN == old($wireN) && ep.seqNumber == old(ep.seqNumber)
+//@   ensures  toobig: old(theSet(set).setType) != Undefined && old(16 + theSet(set).length > 65535) ==> err != nil && $wireN == old($wireN)
+//@   ensures  atmost: $wireN == old($wireN) || $wireN == old($wireN) + 1
+//@   ensures  sentok: $wireN != old($wireN) ==> old(16 + theSet(set).length <= 65535) && old(theSet(set).setType) != Undefined
+//@                    && (old(theSet(set).setType) == Data ==> old(allSane(ep, theSet(set))))
+//@   ensures  boundary: old(theSet(set).setType) != Undefined && old(16 + theSet(set).length <= 65535)
+//@                    && (old(theSet(set).setType) == Data ==> old(allSane(ep, theSet(set))) && noEncErr(theSet(set)) && old(hdrIdOK(ep, theSet(set)))) ==> $wireN == old($wireN) + 1
+//@   ensures  ok:   err == nil ==> $wireN == old($wireN) + 1 && n == len($wireLast) && len($wireLast) == 16 + old(theSet(set).length)
+//@                    && msgHdr($wireLast, ep.seqNumber, ep.obsDomainID, $lastNow)
+//@   ensures  seq:  err == nil ==> ep.seqNumber == (old(theSet(set).setType) == Data ? (old(ep.seqNumber) + len(theSet(set).records)) % 4294967296 : old(ep.seqNumber))
+//@   ensures  sethdr: $wireN != old($wireN) ==> $wireLast[16] == old(theSet(set).headerBuffer[0]) && $wireLast[17] == old(theSet(set).headerBuffer[1])
+//@                    && be16($wireLast, 18) == old(theSet(set).length) % 65536
+//@   ensures  dom:  ep.obsDomainID == old(ep.obsDomainID)
+//@   ensures  lock: !ep.templateMutex.held
+//@   replay session
+//@   ensures  hdrid: $wireN != old($wireN) && old(theSet(set).setType) == Data ==> old(hdrIdOK(ep, theSet(set)))
+//@   ensures  faithful: $wireN != old($wireN) && old(theSet(set).setType) == Data ==> old(freshEncodable(theSet(set)))
+//@   modifies ep.seqNumber, $wireN, $wireLast, $wireLastN, $lastNow, ep.templatesMap[*], ep.templateMutex.held,
+//@            theSet(set).headerBuffer[2:4], theSet(set).records[*].(*baseRecord).buffer, theSet(set).records[*].(*dataRecord).encodeErr
+//@   loop 1 invariant cnt:  0 <= $i && $i <= len(theSet(set).records) && setType != Undefined && setType == old(theSet(set).setType)
+//@   loop 1 invariant same: $wireN == old($wireN) && ep.seqNumber == old(ep.seqNumber) && !ep.templateMutex.held && ep.templatesMap == old(ep.templatesMap)
+//@   loop 1 invariant sane: setType == Data ==> (forall j in [0, $i): old(sane(ep, theSet(set).records[j])))
+//@   loop 1 invariant faithful: setType == Data ==> (forall j in [0, $i): is(theSet(set).records[j], *dataRecord) && old(len(theSet(set).records[j].(*dataRecord).buffer) != theSet(set).records[j].(*dataRecord).len) ==>
+//@                    (forall e in [0, len(theSet(set).records[j].(*dataRecord).orderedElementList)): old(encodable(theSet(set).records[j].(*dataRecord).orderedElementList[e]))))
+//@   loop 1 invariant untouched: forall j in [$i, len(theSet(set).records)): theSet(set).records[j].(*baseRecord).buffer == old(theSet(set).records[j].(*baseRecord).buffer)
+//@   loop 1 invariant tmsame: setType == Data ==> (forall k in [0, 65536): has(ep.templatesMap, k) == old(has(ep.templatesMap, k)) && ep.templatesMap[k] == old(ep.templatesMap[k]))
+//@   loop 1 invariant tplbuf: tplBufSame(theSet(set))
+//@   loop 1 invariant len:  theSet(set).length == 4 + sumRec(theSet(set).records, len(theSet(set).records))
+
+//@ func (ep *ExportingProcess) dataSetSanityCheck(set) (err)
+//@   requires ep:   ep != nil && !ep.templateMutex.held
+//@   requires set:  is(set, *set) && theSet(set) != nil && (forall i in [0, len(theSet(set).records)): recSafe(theSet(set).records[i]))
+//@   ensures  ok:   err == nil ==> len(theSet(set).headerBuffer) >= 4 && tmHas(ep, be16(theSet(set).headerBuffer, 0))
+//@                    && (forall i in [0, len(theSet(set).records)): recId(theSet(set).records[i]) == be16(theSet(set).headerBuffer, 0))
+//@   ensures  conv: len(theSet(set).headerBuffer) >= 4 && tmHas(ep, be16(theSet(set).headerBuffer, 0))
+//@                    && (forall i in [0, len(theSet(set).records)): recId(theSet(set).records[i]) == be16(theSet(set).headerBuffer, 0)) ==> err == nil
+//@   ensures  lock: !ep.templateMutex.held
+//@   modifies ep.templateMutex.held
+//@   loop 1 invariant cnt: 0 <= $i && $i <= len(theSet(set).records) && !ep.templateMutex.held
+//@   loop 1 invariant ids: forall j in [0, $i): recId(theSet(set).records[j]) == setID
 //@   loop 1 decreases len(theSet(set).records) - $i
